@@ -18,7 +18,7 @@ CONSTANTS Objs,        \* model objects, strings "o1".."o3"
           Dev          \* named deviations the real code shows (probed): subset of DevAll
 VARIABLES st, last
 vars == <<st, last>>
-DevAll == {"a", "b", "c", "d", "e", "f2", "g", "h", "gsw", "eoc", "ksw", "kswx", "kswmerge"}
+DevAll == {"a", "b", "c", "d", "e", "f2", "g", "h", "gsw", "rsw2", "eoc", "ksw", "kswx", "kswmerge"}
 Absent == -1          \* no row / attribute not loaded (NO_VALUE)
 NoHist == -2          \* no committed_state entry
 NoObj == "none"
@@ -236,8 +236,14 @@ FlushCore(s0, fk) ==      \* s0 has a transaction; returns R(state, ret)
   LET sA == ScanPend(s0, s0.new)
       D == sA.sdel
       P == sA.new
-      switchers == SelectSeq(P, LAMBDA o : IsSwitch(sA, D, o))
-      inserts == SelectSeq(P, LAMBDA o : ~IsSwitch(sA, D, o))
+      \* deviation rsw2: every pending object with the key of an object marked deleted becomes a row switch, also a second one
+      \* for the same key (both end persistent under one identity; "Identity map already had an identity ... replacing it" warning)
+      Idx(o) == CHOOSE i \in 1..Len(P) : P[i] = o
+      FirstOfKey(o) == \A j \in 1..(Idx(o) - 1) : sA.pk[P[j]] # sA.pk[o]
+      Sw(o) == IsSwitch(sA, D, o) /\ ("rsw2" \in Dev \/ FirstOfKey(o))
+      switchers == SelectSeq(P, Sw)
+      inserts == SelectSeq(P, LAMBDA o : ~Sw(o))
+      dbl == \E i, j \in 1..Len(switchers) : i # j /\ sA.pk[switchers[i]] = sA.pk[switchers[j]]
       switched == {sA.imap[sA.pk[o]] : o \in Range(switchers)}         \* their delete is cancelled (remove_state_actions)
       U == DirtySet(sA)
       updq == switchers \o SeqOfKeys(sA, {o \in U : VChanged(sA, o) \/ PkChanged(sA, o)})
@@ -259,8 +265,8 @@ FlushCore(s0, fk) ==      \* s0 has a transaction; returns R(state, ret)
                              ELSE LET wD == [k \in Keys |-> IF \E i \in 1..Len(Dq) : sD1.key[Dq[i]] = k THEN Absent ELSE ai.w[k]]
                                       sE == IF Dq # <<>> THEN Sql(sD1, 1) ELSE sD1
                                   IN IF fk = -1 THEN [st |-> sE, err |-> "InjectedFault"]      \* raised from after_flush
-                                     ELSE [st |-> sE, err |-> "none", w |-> wD, P |-> Range(P), U |-> U, D |-> D \ switched,
-                                           SW |-> switched]
+                                     ELSE [st |-> [sE EXCEPT !.taint = @ \/ dbl], err |-> "none", w |-> wD, P |-> Range(P), U |-> U, D |-> D \ switched,
+                                           SW |-> switched]      \* which of two switchers the identity map keeps is hash order: exploration stops
 Fail(s, err) == R([GClearTop(Restore(s, Top(s))) EXCEPT !.needrb = TRUE], err)
 FlushWith(s, fk) ==
   IF Clean(s) THEN R(s, "ok")
